@@ -83,17 +83,47 @@ theorem mutate_int_documented (x y : Int) (m : Mutator) (v : Value)
       simp [mutate, isArith, arithAtom, arithInt]
   all_goals cases h
 
-/-- **C03 (2)** reals -/
+theorem realInRange_some (r v : Rat) (h : Rfc.realInRange r = some v) : v = r := by
+  unfold Rfc.realInRange at h
+  split at h
+  · cases h; rfl
+  · cases h
+
+/-- **C03 (2)** reals: whenever the RFC defines the result (finite, no zero divisor) the code computes it -/
 theorem mutate_real_documented (x y : Rat) (m : Mutator) (v : Value)
     (h : Rfc.mutateValue (.atom (.real x)) m (.atom (.real y)) = some v) :
     (mutate (.atom (.real x)) m (.atom (.real y))).1 = v := by
   cases m <;> simp only [Rfc.mutateValue] at h
-  · cases h; simp [mutate, isArith, arithAtom, arithReal]
-  · cases h; simp [mutate, isArith, arithAtom, arithReal]
-  · cases h; simp [mutate, isArith, arithAtom, arithReal]
+  · cases hr : Rfc.realInRange (x + y) with
+    | none => simp [hr] at h
+    | some r =>
+      simp only [hr, Option.map_some, Option.some.injEq] at h
+      subst h
+      rw [realInRange_some _ _ hr]
+      simp [mutate, isArith, arithAtom, arithReal]
+  · cases hr : Rfc.realInRange (x - y) with
+    | none => simp [hr] at h
+    | some r =>
+      simp only [hr, Option.map_some, Option.some.injEq] at h
+      subst h
+      rw [realInRange_some _ _ hr]
+      simp [mutate, isArith, arithAtom, arithReal]
+  · cases hr : Rfc.realInRange (x * y) with
+    | none => simp [hr] at h
+    | some r =>
+      simp only [hr, Option.map_some, Option.some.injEq] at h
+      subst h
+      rw [realInRange_some _ _ hr]
+      simp [mutate, isArith, arithAtom, arithReal]
   · split at h
     · cases h
-    · cases h; simp [mutate, isArith, arithAtom, arithReal]
+    · cases hr : Rfc.realInRange (x / y) with
+      | none => simp [hr] at h
+      | some r =>
+        simp only [hr, Option.map_some, Option.some.injEq] at h
+        subst h
+        rw [realInRange_some _ _ hr]
+        simp [mutate, isArith, arithAtom, arithReal]
   all_goals cases h
 
 theorem mem_insertAll (vs cur : List Atom) (added : List Atom) (e : Atom) :
